@@ -15,11 +15,22 @@ From SCC Require Export Proof.SimFrag.
 Import ListNotations.
 Open Scope Z_scope.
 Open Scope list_scope.
+(* names that lived in this file before they moved to Proof/SimFrag.v (kept for qualified uses) *)
+Notation stmt_int := SimFrag.stmt_int (only parsing).
+Notation def_int := SimFrag.def_int (only parsing).
+Notation int_frag := SimFrag.int_frag (only parsing).
+Notation plain_names := SimFrag.plain_names (only parsing).
+Notation good := SimFrag.good (only parsing).
+Notation not_good_stuck := SimFrag.not_good_stuck (only parsing).
+Notation not_good_fuel := SimFrag.not_good_fuel (only parsing).
+Notation lookup_of_in := SimFrag.lookup_of_in (only parsing).
+Notation lookups_total := SimFrag.lookups_total (only parsing).
+Notation lookup_label_find_def := SimFrag.lookup_label_find_def (only parsing).
+Notation not_oof := SimFrag.not_oof (only parsing).
+Notation good_not_oof := SimFrag.good_not_oof (only parsing).
 
 (* ---------- the fragment ---------- *)
-(* stmt_int, def_int, int_frag, plain_names (over `hash_name`, which is `is_hash_label`), good, not_oof: Proof/SimFrag.v *)
-Lemma hash_name_is l : hash_name l = is_hash_label l.
-Proof. reflexivity. Qed.
+(* stmt_int, def_int, int_frag, plain_names, good, not_oof: Proof/SimFrag.v *)
 
 (* ---------- the frame above the spill area ---------- *)
 Definition outer_ok (s : xstate) (sp : Z) : Prop :=
